@@ -526,20 +526,16 @@ class Step:
 
         """
         if self.while_decorator:
-            while_counter = self.while_decorator.while_counter
-            if context['whileCounter'] != while_counter:
-                context['whileCounter'] = while_counter
+            # the called groups could have removed the key from context.
+            context['whileCounter'] = self.while_decorator.while_counter
 
         if self.foreach_items:
             # an individual item could be None, so no bool check on
             # counter itself, use foreach_items instead.
-            if context['i'] != self.for_counter:
-                context['i'] = self.for_counter
+            context['i'] = self.for_counter
 
         if self.retry_decorator:
-            retry_counter = self.retry_decorator.retry_counter
-            if context['retryCounter'] != retry_counter:
-                context['retryCounter'] = retry_counter
+            context['retryCounter'] = self.retry_decorator.retry_counter
 
         # if call does not have a value something is seriously wrong.
         assert call.original_config[1]
